@@ -17,7 +17,7 @@ Theorem C11_common_group_is_deepest : forall gt, wfGb gt = true -> forall s d a 
   group_path gt s d = Some (a, dd, c) ->
   In c (gchain gt s) /\ In c (gchain gt d) /\
   (forall b, In b (gchain gt s) -> In b (gchain gt d) -> In b (gchain gt c)) /\
-  (depth gt s - a = depth gt c)%nat /\ (depth gt d - dd = depth gt c)%nat /\ (c < length gt)%nat.
+  (gdepth gt s - a = gdepth gt c)%nat /\ (gdepth gt d - dd = gdepth gt c)%nat /\ (c < length gt)%nat.
 Proof. exact group_path_lca. Qed.
 Print Assumptions C11_common_group_is_deepest.
 
@@ -30,7 +30,7 @@ Theorem C11_effects : forall gt sg dg f es, connect_one gt sg dg f = Accepted es
 Proof. exact connect_one_effects. Qed.
 Print Assumptions C11_effects.
 
-(* the delay of an accepted connection: length = depth of the destination group, cutoff = depth of the common
+(* the delay of an accepted connection: length = gdepth of the destination group, cutoff = gdepth of the common
    group (sub-time is shared only inside the common enclosing group), time shift in tier 0, weak in the
    common group's own tier *)
 Theorem C11_delay_shape : forall gt, wfGb gt = true -> forall sg dg sh wk, (sg < length gt)%nat -> (dg < length gt)%nat ->
@@ -39,10 +39,10 @@ Theorem C11_delay_shape : forall gt, wfGb gt = true -> forall sg dg sh wk, (sg <
     (forall b, In b (gchain gt sg) -> In b (gchain gt dg) -> In b (gchain gt c)) /\
     if negb (wk =? 0)%Z && Nat.eqb c 0 then connect_interval gt sg dg sh wk = CErr CScenarioError
     else exists d, connect_interval gt sg dg sh wk = COk d /\ wfI d /\
-         ipre d = depth gt sg /\ icut d = depth gt c /\ length (itiers d) = depth gt dg /\
-         (forall i, (i < depth gt dg)%nat -> nth i (itiers d) 0%Z =
-             if Nat.eqb i 0 then (if negb (wk =? 0)%Z && Nat.eqb (depth gt c) 1 then wk else sh)
-             else if negb (wk =? 0)%Z && Nat.eqb i (depth gt c - 1) then wk else 0%Z).
+         ipre d = gdepth gt sg /\ icut d = gdepth gt c /\ length (itiers d) = gdepth gt dg /\
+         (forall i, (i < gdepth gt dg)%nat -> nth i (itiers d) 0%Z =
+             if Nat.eqb i 0 then (if negb (wk =? 0)%Z && Nat.eqb (gdepth gt c) 1 then wk else sh)
+             else if negb (wk =? 0)%Z && Nat.eqb i (gdepth gt c - 1) then wk else 0%Z).
 Proof. exact connect_interval_spec. Qed.
 Print Assumptions C11_delay_shape.
 
@@ -51,7 +51,7 @@ Theorem C11_siblings : forall gt, wfGb gt = true -> forall g1 g2 p f, (g1 < leng
   parent gt g1 = Some p -> parent gt g2 = Some p -> g1 <> g2 ->
   lca gt g1 g2 = Some p /\
   (weak f = true -> p = 0%nat -> is_rejected (connect_one gt g1 g2 f) = true) /\
-  (forall d, connect_interval gt g1 g2 (shifted f) (if weak f then 1 else 0)%Z = COk d -> icut d = depth gt p).
+  (forall d, connect_interval gt g1 g2 (shifted f) (if weak f then 1 else 0)%Z = COk d -> icut d = gdepth gt p).
 Proof. exact siblings_interval. Qed.
 Print Assumptions C11_siblings.
 
